@@ -199,6 +199,16 @@ func (a *alphabetCtx) dkgAlphabet(keyGood, keyBad, poly []byte) []*exEvent {
 				a.ev("masterkey", p, v, 4, EvMasterKey, mkReq(requests.DKGProposalMasterKeyConfirmationRequest{ParticipantId: p, MasterKey: keyGood, PubPolyBz: poly, CreatedAt: t}), ""),
 			)
 		}
+		if p < a.N {
+			// the contribution's own field present but empty (""), as opposed to a missing payload
+			t := a.ts("valid")
+			out = append(out,
+				a.ev("commit", p, "emptyfield", 1, EvCommit, mkReq(map[string]interface{}{"ParticipantId": p, "Commit": "", "CreatedAt": t}), ""),
+				a.ev("deal", p, "emptyfield", 2, EvDeal, mkReq(map[string]interface{}{"ParticipantId": p, "Deal": "", "CreatedAt": t}), a.W.Nodes[0].Name),
+				a.ev("response", p, "emptyfield", 3, EvResponse, mkReq(map[string]interface{}{"ParticipantId": p, "Response": "", "CreatedAt": t}), ""),
+				a.ev("masterkey", p, "emptyfield", 4, EvMasterKey, mkReq(map[string]interface{}{"ParticipantId": p, "MasterKey": "", "PubPolyBz": "", "CreatedAt": t}), ""),
+			)
+		}
 		t := a.ts("valid")
 		out = append(out,
 			a.ev("masterkey", p, "mismatch", 4, EvMasterKey, mkReq(requests.DKGProposalMasterKeyConfirmationRequest{ParticipantId: p, MasterKey: keyBad, PubPolyBz: poly, CreatedAt: t}), ""),
